@@ -98,13 +98,14 @@ def binArith (op : BinOp) (x y : N) : R N :=
       if b < 0 then .error .error else if b ≥ 64 then .ok (if a < 0 then -1 else 0)
       else .ok (Int.fdiv a (2 ^ b.toNat))
 
-/-- the `IN` scan: object elements (sub-query rows) contribute their first value -/
+/-- the `IN` scan: object elements (sub-query rows) must consist of one column and contribute its
+    value; a row with no or several columns is an error (repair D50: Go picked a random column) -/
 def inLoop (lv : Val N) : List (Val N) → R Bool
   | [] => .ok false
-  | .obj ((_, v) :: _) :: rest => do
+  | .obj [(_, v)] :: rest => do
     let c ← compareVal lv v
     if c = 0 then pure true else inLoop lv rest
-  | .obj [] :: rest => inLoop lv rest
+  | .obj _ :: _ => .error .error
   | v :: rest => do
     let c ← compareVal lv v
     if c = 0 then pure true else inLoop lv rest
